@@ -527,3 +527,68 @@ func c04LiteralClosed(w *World, r *Report) {
 	}
 	r.Check(!reach && len(stop) > 0 && len(blocked) > 0, "R04.19", "LexLiteral returns LITERAL only for a closed literal", target.Instrs[len(target.Instrs)-1].Pos(), "via `next == quote` or via ConstructToken (which reports a missing terminator)", "there is a path to the LITERAL return on which neither the closing quote was seen nor ConstructToken ran (e.g. input ends right after the opening quote): an unterminated literal is accepted as the empty string")
 }
+
+// R04.20  end of input is signalled only when the input is exhausted.
+// xutils.EOF is the rune 0, so a NUL character decoded from the input must
+// not be returned as such: in CommonLex.Next the decoded rune is returned
+// only on a branch that has excluded the EOF value.
+func c04NoFalseEOF(w *World, r *Report) {
+	f := w.SSAFunc(w.Method("xpath", "CommonLex", "Next"))
+	if f == nil {
+		panic(undecided{"CommonLex.Next"})
+	}
+	eof := xutilsTok(w, "EOF")
+	n := 0
+	for _, b := range f.Blocks {
+		ret, ok := b.Instrs[len(b.Instrs)-1].(*ssa.Return)
+		if !ok || len(ret.Results) != 1 {
+			continue
+		}
+		ex, ok := ret.Results[0].(*ssa.Extract)
+		if !ok {
+			continue
+		}
+		if c, ok := ex.Tuple.(*ssa.Call); !ok || c.Call.StaticCallee() == nil || c.Call.StaticCallee().String() != "unicode/utf8.DecodeRune" {
+			continue
+		}
+		n++
+		excluded := false
+		for _, b2 := range f.Blocks {
+			iff, ok := b2.Instrs[len(b2.Instrs)-1].(*ssa.If)
+			if !ok {
+				continue
+			}
+			bo, ok := iff.Cond.(*ssa.BinOp)
+			if !ok || bo.X != ssa.Value(ex) {
+				continue
+			}
+			k, ok := bo.Y.(*ssa.Const)
+			if !ok || k.Value == nil {
+				continue
+			}
+			if v, _ := constant.Int64Val(constant.ToInt(k.Value)); v != eof {
+				continue
+			}
+			var succ *ssa.BasicBlock
+			switch bo.Op {
+			case token.EQL:
+				succ = b2.Succs[1]
+			case token.NEQ:
+				succ = b2.Succs[0]
+			}
+			if succ != nil && (succ == b || succ.Dominates(b)) {
+				// every path into b must come through that successor: b's other predecessors must also exclude it
+				excluded = true
+				for _, p := range b.Preds {
+					if !(p == b2 || succ.Dominates(p) || succ == b) {
+						excluded = false
+					}
+				}
+			}
+		}
+		r.Check(excluded, "R04.20", "CommonLex.Next returns the decoded rune", ret.Pos(), "only after the rune was tested against the end marker", "a NUL character in the expression is returned as xutils.EOF: everything after it is ignored (or it silently vanishes from the look-ahead slot), so strings with a stray NUL are accepted")
+	}
+	if n == 0 {
+		panic(undecided{"CommonLex.Next: return of the decoded rune not found"})
+	}
+}
